@@ -37,7 +37,26 @@ func c01NumCases(env *core.Env) int {
 
 // docCase builds the document of case idx: structured single-feature cases first, random combinations after.
 func docCase(env *core.Env, prop string, idx int, variants int, fragile bool) (g *gen.DocGen, kind string, doc map[string]interface{}, structured bool) {
-	cells := gen.StructuredCells()
+	return docCaseKinds(env, prop, idx, variants, fragile, gen.DocKinds)
+}
+
+// structuredCellsFor restricts the structured cells to some kinds.
+func structuredCellsFor(kinds []string) [][2]string {
+	want := map[string]bool{}
+	for _, k := range kinds {
+		want[k] = true
+	}
+	var out [][2]string
+	for _, c := range gen.StructuredCells() {
+		if want[c[0]] {
+			out = append(out, c)
+		}
+	}
+	return out
+}
+
+func docCaseKinds(env *core.Env, prop string, idx int, variants int, fragile bool, kinds []string) (g *gen.DocGen, kind string, doc map[string]interface{}, structured bool) {
+	cells := structuredCellsFor(kinds)
 	rng := core.Rng(env.Seed, prop, idx)
 	g = gen.NewDocGen(rng)
 	g.Refs = true
@@ -53,7 +72,7 @@ func docCase(env *core.Env, prop string, idx int, variants int, fragile bool) (g
 		return g, kind, g.Gen(kind), true
 	}
 	r := idx - len(cells)*variants
-	kind = gen.DocKinds[r%len(gen.DocKinds)]
+	kind = kinds[r%len(kinds)]
 	g.EmptyRequired = rng.Intn(4) == 0
 	g.Density = []float64{0.6, 1, 1.6}[rng.Intn(3)]
 	g.MaxDepth = 2 + rng.Intn(4)
